@@ -624,6 +624,36 @@ def build(run):
         return bounded_ok(n, "derivatives of Cofunction / Matrix / FormSum / Cofunction w.r.t. itself", sample="zero derivatives with the extra argument, linearity over FormSum, identity")
     run.add("derivative/base-forms", derivs, kind="bounded")
 
+    # ---- coefficients: an Action depends on exactly the coefficients of its two operands (a Coefficient operand is its own coefficient), each reported once
+    def action_coefficients():
+        from ufl import Action, Cofunction, Matrix
+        M_ = Model()
+        V_ = M_.V
+        u_, g_ = ufl.Coefficient(V_), ufl.Coefficient(V_)
+        c_ = Cofunction(V_.dual())
+        A_ = Matrix(V_, V_)
+        v_, w_ = ufl.TestFunction(V_), ufl.TrialFunction(V_)
+        dx_ = ufl.Measure("dx", domain=M_.m)
+        own = lambda x_: (x_,) if isinstance(x_, (ufl.Coefficient, Cofunction)) else tuple(x_.coefficients())     # noqa: E731
+        pairs = [("Action(u, c)", u_, c_), ("Action(c, u)", c_, u_), ("Action(u*v*dx, u)", u_ * v_ * dx_, u_), ("Action(g*u*v*dx, u)", g_ * u_ * v_ * dx_, u_),
+                 ("Action(A, u)", A_, u_), ("Action(g*w*v*dx, u)", g_ * w_ * v_ * dx_, u_), ("Action(Action(A, u), c)", Action(A_, u_), c_), ("Action(u*w*v*dx, Action(A, u))", u_ * w_ * v_ * dx_, Action(A_, u_))]
+        n = 0
+        for nm_, l_, r_ in pairs:
+            try:
+                a_ = Action(l_, r_)
+            except (TypeError, ValueError):
+                continue
+            if not hasattr(a_, "coefficients"):
+                continue
+            got = tuple(a_.coefficients())
+            want = set(own(l_)) | set(own(r_))
+            n += 1
+            if isinstance(a_, Action) and (set(got) != want or len(got) != len(set(got))):
+                return violated(f"{nm_}.coefficients() = {tuple(map(str, got))}; its operands depend on {tuple(sorted(map(str, want)))} (each once)",
+                                replay={"action": nm_, "got": [str(x_) for x_ in got], "want": sorted(str(x_) for x_ in want)}, reproduced=True, backend="exec")
+        return bounded_ok(n, f"{n} actions over coefficients, cofunctions, forms and matrices", sample="coefficients of an Action = union of its operands' coefficients, without duplicates")
+    run.add("action/coefficients-are-those-of-the-operands", action_coefficients, kind="bounded")
+
     def canary():
         M = Model()
         P = pool(M)
